@@ -125,16 +125,18 @@ package sqlittle
 // non-negative position in the stored record.
 //@ func sqlittle.toColumnIndexRowid
 //@   props C01 C10 C05
-//@   modifies alloc M:S_sqlittle_columnIndex
+//@   modifies alloc
 //@   requires s != nil
 //@   ensures [ok] err == nil ==> CIS_OK(r0)
+//@   loop 1 invariant fresh(res)
 //@   loop 1 invariant forall qc int :: 0 <= qc && qc < len(res) ==> res[qc].rowid || (res[qc].col != nil && res[qc].rowIndex >= 0)
 
 //@ func sqlittle.toColumnIndexNonRowid
 //@   props C01 C10 C05
-//@   modifies alloc M:S_sqlittle_columnIndex M:bv64 M:Str
+//@   modifies alloc
 //@   requires s != nil && s.WithoutRowid
 //@   ensures [ok] err == nil ==> CIS_OK(r0)
+//@   loop 1 invariant fresh(res)
 //@   loop 1 invariant forall qc int :: 0 <= qc && qc < len(res) ==> res[qc].rowid || (res[qc].col != nil && res[qc].rowIndex >= 0)
 
 // columnStoreOrder (WITHOUT ROWID): position of every column in the stored record: primary-key columns
@@ -142,14 +144,14 @@ package sqlittle
 //@ macro PKFIRST(schema, i, k) = 0 <= i && i < len(schema.Columns) && 0 <= k && k < len(schema.PK) && streq(str_lower(schema.PK[k].Column), str_lower(schema.Columns[i].Column)) && (forall qm int :: 0 <= qm && qm < k ==> !streq(str_lower(schema.PK[qm].Column), str_lower(schema.Columns[i].Column)))
 //@ func sqlittle.columnStoreOrder
 //@   props C10 C05
-//@   modifies alloc M:bv64 M:Str
+//@   modifies alloc
 //@   requires schema != nil && schema.WithoutRowid
 //@   ensures [len] len(result) == len(schema.Columns)
 //@   ensures [nonneg] forall i int :: 0 <= i && i < len(result) ==> result[i] >= 0
 //@   ensures [pkfirst] forall i int :: 0 <= i && i < len(schema.Columns) ==> (forall k int :: PKFIRST(schema, i, k) ==> result[i] == k)
-//@   loop 1 invariant len(cols) == $i
+//@   loop 1 invariant len(cols) == $i && fresh(cols)
 //@   loop 1 invariant forall k int :: 0 <= k && k < $i ==> str_lower(schema.PK[k].Column) == cols[k]
-//@   loop 2 invariant len(cols) >= len(schema.PK)
+//@   loop 2 invariant len(cols) >= len(schema.PK) && fresh(cols)
 //@   loop 2 invariant forall k int :: 0 <= k && k < len(schema.PK) ==> str_lower(schema.PK[k].Column) == cols[k]
 //@   loop 2 invariant forall k int :: 0 <= k && k < len(schema.PK) ==> cols[k] == str_lower(schema.PK[k].Column)
 //@   loop 3 invariant len(cols) >= len(schema.PK)
@@ -189,6 +191,7 @@ package sqlittle
 //@   modifies * -M:S_db_KeyCol -M:S_sqlittle_columnIndex hdr_valid hdr_ps hdr_cookie jr_pos peer_state
 //@   requires [dbnn] db != nil
 //@   requires [snn] s != nil && cb != nil
+//@   requires [worowid] s.WithoutRowid
 //@   requires [locked] lk_shared
 
 //@ func sqlittle.selectNonRowid$1
@@ -330,6 +333,7 @@ package sqlittle
 //@   requires [dbnn] db != nil
 //@   requires [snn] schema != nil && cb != nil
 //@   requires [inn] index != nil
+//@   requires [worowid] schema.WithoutRowid
 //@   requires [locked] lk_shared
 //@   ghost-entry vianr = true
 //@   ensures-before-exit [c12] cbErr != nil ==> r0 != nil
@@ -349,6 +353,7 @@ package sqlittle
 //@   requires [dbnn] db != nil
 //@   requires [snn] schema != nil && cb != nil
 //@   requires [inn] index != nil
+//@   requires [worowid] schema.WithoutRowid
 //@   requires [locked] lk_shared
 //@   requires [key] KEYOK(key)
 //@   ghost-entry vianr = true
@@ -397,6 +402,7 @@ package sqlittle
 //@   modifies * -M:S_db_KeyCol -M:S_sqlittle_columnIndex hdr_valid hdr_ps hdr_cookie jr_pos peer_state
 //@   requires [dbnn] db != nil
 //@   requires [snn] s != nil && cb != nil
+//@   requires [worowid] s.WithoutRowid
 //@   requires [locked] lk_shared
 
 //@ func sqlittle.pkSelectNonRowid$1
